@@ -14,6 +14,7 @@ C18 — executable model of `mca.py`:
 Floats: a division by zero yields inf/nan instead of raising; here such an entry is `none`.
 -/
 import MxlVerif.Model.C09Workers
+import MxlVerif.Generated.C18Expr
 namespace Mxl.C18
 open Mxl.C09
 
@@ -24,6 +25,15 @@ def coef (normalized : Bool) (d old upper lower base : Rat) : Option Rat :=
   match quot (upper - lower) (2 * d * old) with
   | none => none
   | some e => if normalized then (quot old base).map fun s => e * s else some e
+
+/-- the scaled central difference of `x ↦ x^n` at relative displacement `d`: what `coef true` yields for a
+    power law of kinetic order `n` (`Props.C18_central_diff_monomial`) -/
+def scaledCD (d : Rat) (n : Nat) : Rat := ((1 + d) ^ n - (1 - d) ^ n) / (2 * d)
+
+/-- `Π_{k<n} (1 + k·d²)`: the factor by which the scaled central difference may exceed the kinetic order -/
+def prodUp (d : Rat) : Nat → Rat
+  | 0 => 1
+  | n + 1 => prodUp d n * (1 + (n : Rat) * d ^ 2)
 
 abbrev Column := List (Name × Option Rat)
 
@@ -68,18 +78,83 @@ def varElasticities (c : Content) (toScan : Option (List Name)) (vars : Option R
   let names := toScan.getD (omKeys c.vars)
   names.mapM fun var => do pure (var, ← varElasticityOf c vs t normalized d var)
 
-/-! ### `parameter_elasticities`: the model's parameters are written and reset -/
+/-! ### routines that WRITE the one model object: what the model looks like when an exception escapes
+
+`Run α` = the model as a block of statements leaves it, and the block's value or the exception that escapes
+it.  (An `Except Err (Content × α)` forgets the model on the raising path, and with it the question whether
+the routine put the model back.) -/
+
+abbrev Run (α : Type) := Content × Except Err α
+
+/-- sequencing: an exception stops the block, the model stays as it is at that point -/
+def Run.bind {α β : Type} (r : Run α) (f : Content → α → Run β) : Run β :=
+  match r with
+  | (c, .error e) => (c, .error e)
+  | (c, .ok a) => f c a
+
+/-- a statement that only reads the model -/
+def rd {α : Type} (c : Content) (x : Except Err α) : Run α := (c, x)
+
+/-- `model.update_parameters(...)` / `model.update_variables(...)`: `_check_known_names` raises BEFORE anything
+    is written, so a failing update leaves the model as it was -/
+def wr (c : Content) (x : Except Err Content) : Run Unit :=
+  match x with
+  | .ok c' => (c', .ok ())
+  | .error e => (c, .error e)
+
+/-- `try: body  finally: fin` — `fin` runs on the model as `body` left it; an exception of `fin` replaces the
+    body's outcome -/
+def tryFinally {α : Type} (body : Run α) (fin : Content → Run Unit) : Run α :=
+  match fin body.1 with
+  | (c', .ok _) => (c', body.2)
+  | (c', .error e) => (c', .error e)
+
+/-- forget the model of a raising run (the view the rest of the framework has of a routine) -/
+def Run.toExcept {α : Type} (r : Run α) : Except Err (Content × α) :=
+  match r with
+  | (c, .ok a) => .ok (c, a)
+  | (_, .error e) => .error e
+
+/-! ### `parameter_elasticities`: the model's parameters are written and reset (`try ... finally`, after
+    "fix: parameter_elasticities resets the perturbed parameter when a flux evaluation raises") -/
+
+abbrev Fluxes := List (Name × Rat)
+
+/-- the `try:` block -/
+def parTry (vars : Row) (t d old : Rat) (c : Content) (par : Name) : Run (Fluxes × Fluxes) :=
+  (wr c (updatePars c [(par, old * (1 + d))])).bind fun c1 _ =>
+  (rd c1 (getFluxes c1 (some vars) t)).bind fun c1 upper =>
+  (wr c1 (updatePars c1 [(par, old * (1 - d))])).bind fun c2 _ =>
+  (rd c2 (getFluxes c2 (some vars) t)).bind fun c2 lower =>
+  (c2, .ok (upper, lower))
+
+/-- `old = model.get_parameter_values()[par]` -/
+def oldValue (c : Content) (par : Name) : Except Err Rat := do
+  let pv ← getParameterValues c
+  getKey pv par
+
+def parElasticityOfT (vars : Row) (t : Rat) (normalized : Bool) (d : Rat) (c : Content) (par : Name) : Run Column :=
+  (rd c (oldValue c par)).bind fun c old =>
+  (if Generated.C18.parFinallyResets then                -- regenerated from mca.py: is the reset in a `finally:`?
+      tryFinally (parTry vars t d old c par) fun c' => wr c' (updatePars c' [(par, old)])
+    else
+      (parTry vars t d old c par).bind fun c2 ul => (wr c2 (updatePars c2 [(par, old)])).bind fun c3 _ => (c3, .ok ul)).bind fun c3 ul =>
+  (rd c3 (baseFlux normalized c3 vars t ul.1)).bind fun c3 base =>
+  (c3, .ok (zip3 ul.1 ul.2 base (coef normalized d old)))
 
 def parElasticityOf (vars : Row) (t : Rat) (normalized : Bool) (d : Rat) (c : Content) (par : Name) :
-    Except Err (Content × Column) := do
-  let old ← getKey (← getParameterValues c) par
-  let c1 ← updatePars c [(par, old * (1 + d))]
-  let upper ← getFluxes c1 (some vars) t
-  let c2 ← updatePars c1 [(par, old * (1 - d))]
-  let lower ← getFluxes c2 (some vars) t
-  let c3 ← updatePars c2 [(par, old)]
-  let base ← baseFlux normalized c3 vars t upper
-  pure (c3, zip3 upper lower base (coef normalized d old))
+    Except Err (Content × Column) := (parElasticityOfT vars t normalized d c par).toExcept
+
+/-- the loop over `to_scan` on the one model object; an exception ends it with the model as it is then -/
+def foldColsT (f : Content → Name → Run Column) : Content → List Name → Run (List (Name × Column))
+  | c, [] => (c, .ok [])
+  | c, p :: rest =>
+    match f c p with
+    | (c1, .error e) => (c1, .error e)
+    | (c1, .ok col) =>
+      match foldColsT f c1 rest with
+      | (c2, .error e) => (c2, .error e)
+      | (c2, .ok cols) => (c2, .ok ((p, col) :: cols))
 
 def foldCols (f : Content → Name → Except Err (Content × Column)) :
     Content → List Name → Except Err (Content × List (Name × Column))
@@ -92,10 +167,14 @@ def foldCols (f : Content → Name → Except Err (Content × Column)) :
       | .error e => .error e
       | .ok (c2, cols) => .ok (c2, (p, col) :: cols)
 
+def parElasticitiesT (c : Content) (toScan : Option (List Name)) (vars : Option Row) (t : Rat)
+    (normalized : Bool) (d : Rat) : Run (List (Name × Column)) :=
+  (rd c (resolveState c vars)).bind fun c vs =>
+  foldColsT (parElasticityOfT vs t normalized d) c (toScan.getD (omKeys c.pars))
+
 def parElasticities (c : Content) (toScan : Option (List Name)) (vars : Option Row) (t : Rat)
-    (normalized : Bool) (d : Rat) : Except Err (Content × List (Name × Column)) := do
-  let vs ← resolveState c vars
-  foldCols (parElasticityOf vs t normalized d) c (toScan.getD (omKeys c.pars))
+    (normalized : Bool) (d : Rat) : Except Err (Content × List (Name × Column)) :=
+  (parElasticitiesT c toScan vars t normalized d).toExcept
 
 /-! ### `_response_coefficient_worker` -/
 
@@ -138,40 +217,70 @@ def applyY0 (c : Content) (y0 : Option Row) : Except Err Content :=
   | none => .ok c
   | some kv => updateVars c kv
 
-/-- `if normalized: norm = _steady_state_worker(...); conc_resp *= old / norm.variables.iloc[-1]; ...` -/
-def normStep (w : Worker) (normalized : Bool) (old : Rat) (col : Column) (c7 : Content) :
-    Except Err (Content × Column) :=
-  if normalized then do
-    let r ← runSS w c7
-    let v ← lastRow r.2.2 r.1 r.2.1
-    pure (v.1, normCol old col v.2)
-  else pure (c7, col)
-
 /-- `if y0 is not None: model.update_variables(old_variables)` (the fix) -/
 def restoreVars (y0 : Option Row) (saved : List (Name × Val)) (c8 : Content) : Content :=
   match y0 with
   | none => c8
   | some _ => { c8 with vars := saved }
 
+/-- `_steady_state_worker(model, ...)` as a statement: a run that raises leaves the model alone (the steady-state
+    `Simulator` never writes the model it is given) -/
+def runSST (w : Worker) (c : Content) : Run (List Seg × Bool) :=
+  match runSS w c with
+  | .ok (c', segs, nan) => (c', .ok (segs, nan))
+  | .error e => (c, .error e)
+
+/-- reading a lazy view as a statement: `_keep_model_parameters` is itself a `try ... finally`, so a view that
+    raises hands the model its previous parameters back -/
+def lastRowT (nan : Bool) (c : Content) (segs : List Seg) : Run (Option (List (Name × Rat))) :=
+  match lastRow nan c segs with
+  | .ok (c', r) => (c', .ok r)
+  | .error e => (c, .error e)
+
+def normStepT (w : Worker) (normalized : Bool) (old : Rat) (col : Column) (c7 : Content) : Run Column :=
+  if normalized then
+    (runSST w c7).bind fun c8 r =>
+    (lastRowT r.2 c8 r.1).bind fun c9 nv =>
+    (c9, .ok (normCol old col nv))
+  else (c7, .ok col)
+
+/-- the `try:` block of `_response_coefficient_worker` -/
+def respTry (w : Worker) (y0 : Option Row) (normalized : Bool) (d old : Rat) (c : Content) (par : Name) : Run Column :=
+  (wr c (applyY0 c y0)).bind fun c0 _ =>
+  (wr c0 (updatePars c0 [(par, old * (1 + d))])).bind fun c1 _ =>
+  (runSST w c1).bind fun c2 up =>
+  (wr c2 (updatePars c2 [(par, old * (1 - d))])).bind fun c3 _ =>
+  (runSST w c3).bind fun c4 lo =>
+  (lastRowT up.2 c4 up.1).bind fun c5 uv =>             -- upper.variables: re-applies upper's snapshot
+  (lastRowT lo.2 c5 lo.1).bind fun c6 lv =>
+  (wr c6 (updatePars c6 [(par, old)])).bind fun c7 _ =>  -- Reset
+  normStepT w normalized old (diffCol d old uv lv) c7
+
+/-- the `finally:` block: the parameter, then (with custom variables) the saved raw variables -/
+def respFinally (y0 : Option Row) (saved : List (Name × Val)) (par : Name) (old : Rat) (c' : Content) : Run Unit :=
+  (wr c' (updatePars c' [(par, old)])).bind fun c'' _ => (restoreVars y0 saved c'', .ok ())
+
+/-- `_response_coefficient_worker` after
+    "fix: response_coefficients leaves the model's parameters and initial values as it found them when a
+    steady-state run raises" -/
+def responseWorkerT (w : Worker) (y0 : Option Row) (normalized : Bool) (d : Rat) (c : Content) (par : Name) :
+    Run Column :=
+  (rd c (oldValue c par)).bind fun c old =>             -- saved = model.get_raw_variables() = c.vars
+  if Generated.C18.respFinallyRestores then             -- regenerated from mca.py: are reset and restore in a `finally:`?
+    tryFinally (respTry w y0 normalized d old c par) (respFinally y0 c.vars par old)
+  else (respTry w y0 normalized d old c par).bind fun c8 col => (restoreVars y0 c.vars c8, .ok col)
+
 def responseWorker (w : Worker) (y0 : Option Row) (normalized : Bool) (d : Rat) (c : Content) (par : Name) :
-    Except Err (Content × Column) := do
-  let pv ← getParameterValues c
-  let old ← getKey pv par
-  let c0 ← applyY0 c y0                                  -- saved = model.get_raw_variables() = c.vars
-  let c1 ← updatePars c0 [(par, old * (1 + d))]
-  let up ← runSS w c1
-  let c3 ← updatePars up.1 [(par, old * (1 - d))]
-  let lo ← runSS w c3
-  let uv ← lastRow up.2.2 lo.1 up.2.1                    -- upper.variables: re-applies upper's snapshot
-  let lv ← lastRow lo.2.2 uv.1 lo.2.1
-  let c7 ← updatePars lv.1 [(par, old)]                  -- Reset
-  let r ← normStep w normalized old (diffCol d old uv.2 lv.2) c7
-  pure (restoreVars y0 c.vars r.1, r.2)
+    Except Err (Content × Column) := (responseWorkerT w y0 normalized d c par).toExcept
 
 /-- `parallelise(..., parallel=False)`: one model object threaded through the parameters -/
+def responseSeqT (w : Worker) (y0 : Option Row) (normalized : Bool) (d : Rat) (c : Content)
+    (toScan : Option (List Name)) : Run (List (Name × Column)) :=
+  foldColsT (responseWorkerT w y0 normalized d) c (toScan.getD (omKeys c.pars))
+
 def responseSeq (w : Worker) (y0 : Option Row) (normalized : Bool) (d : Rat) (c : Content)
     (toScan : Option (List Name)) : Except Err (Content × List (Name × Column)) :=
-  foldCols (responseWorker w y0 normalized d) c (toScan.getD (omKeys c.pars))
+  (responseSeqT w y0 normalized d c toScan).toExcept
 
 /-- a task's answer as the parent keeps it: `(k, v)` with the coefficients only -/
 def colOf (p : Name) (r : Except Err (Content × Column)) : Except Err (Name × Column) :=
